@@ -166,13 +166,13 @@ func runProof(blob []byte) proofRes {
 }
 func showProof(p proofRes) string {
 	if p.class == "parse-err" {
-		return "res=parse-err"
+		return "err res=parse-err"
 	}
 	t := p.mb.PartialMerkleTree
 	s := fmt.Sprintf("cnt=%x nh=%d flags=%s hroot=%s", t.TxTotalCount, len(t.TxHashes), hx(packBits(t.VBits)),
 		hx(p.mb.BlockHeader.MerkleRoot.CloneBytes()))
 	if p.class == "extract-err" {
-		return "res=extract-err " + s
+		return "err res=extract-err " + s
 	}
 	return fmt.Sprintf("res=ok %s root=%s matches=%s", s, hx(p.root), hexList(p.matches))
 }
@@ -350,9 +350,119 @@ func genProof(r *Rng, n int, w *bufio.Writer) {
 	}
 }
 
+// small blocks for the literal reading of the corruption clause (flag bits, counts)
+func genMkc(r *Rng, n int, w *bufio.Writer) {
+	for i := 0; i < n; i++ {
+		k := 1 + r.Intn(12)
+		fmt.Fprintln(w, "mkc"+mkLine(r, randTxids(r, k), randMatch(r, k))[2:])
+	}
+}
+
 func init() {
+	gens["mkc"] = genMkc
+	runs["mkc"] = runMk
 	gens["mk"] = genMk
 	runs["mk"] = runMk
 	gens["proof"] = genProof
 	runs["proof"] = runProofLine
+}
+
+// ownExtract is an independent re-statement of CPartialMerkleTree::ExtractMatches (Bitcoin
+// Core's rules) on a raw merkle block; used by the oracles to decide what a proof proves.
+func ownExtract(blob []byte) (root []byte, matches [][]byte, ok bool) {
+	if len(blob) < 85 {
+		return nil, nil, false
+	}
+	count := int(binary.LittleEndian.Uint32(blob[80:84]))
+	rd := blob[84:]
+	varint := func() (uint64, bool) {
+		if len(rd) == 0 {
+			return 0, false
+		}
+		d := rd[0]
+		rd = rd[1:]
+		sz, min := 0, uint64(0)
+		switch d {
+		case 0xfd:
+			sz, min = 2, 0xfd
+		case 0xfe:
+			sz, min = 4, 0x10000
+		case 0xff:
+			sz, min = 8, 0x100000000
+		default:
+			return uint64(d), true
+		}
+		if len(rd) < sz {
+			return 0, false
+		}
+		var v uint64
+		for i := sz - 1; i >= 0; i-- {
+			v = v<<8 | uint64(rd[i])
+		}
+		rd = rd[sz:]
+		return v, v >= min
+	}
+	nh, good := varint()
+	if !good || nh > uint64(len(rd)/32) {
+		return nil, nil, false
+	}
+	var hashes [][]byte
+	for i := 0; i < int(nh); i++ {
+		hashes = append(hashes, rd[:32])
+		rd = rd[32:]
+	}
+	nf, good := varint()
+	if !good || nf > uint64(len(rd)) {
+		return nil, nil, false
+	}
+	flags := rd[:nf]
+	nbits := 8 * len(flags)
+	bit := func(i int) bool { return flags[i/8]>>uint(i%8)&1 == 1 }
+	if count == 0 || count > 4000000/240 || len(hashes) > count || nbits < len(hashes) {
+		return nil, nil, false
+	}
+	width := func(h int) int { return (count + (1 << uint(h)) - 1) >> uint(h) }
+	height := 0
+	for width(height) > 1 {
+		height++
+	}
+	bu, hu, bad := 0, 0, false
+	var walk func(h, pos int) []byte
+	walk = func(h, pos int) []byte {
+		if bu >= nbits {
+			bad = true
+			return nil
+		}
+		parent := bit(bu)
+		bu++
+		if h == 0 || !parent {
+			if hu >= len(hashes) {
+				bad = true
+				return nil
+			}
+			x := hashes[hu]
+			hu++
+			if h == 0 && parent {
+				matches = append(matches, x)
+			}
+			return x
+		}
+		l := walk(h-1, pos*2)
+		r := l
+		if pos*2+1 < width(h-1) {
+			r = walk(h-1, pos*2+1)
+			if !bad && bytes.Equal(l, r) {
+				bad = true
+			}
+		}
+		if bad {
+			return nil
+		}
+		return nodeHash(l, r)
+	}
+	root = walk(height, 0)
+	if bad || (bu+7)/8 != (nbits+7)/8 || hu != len(hashes) {
+		return nil, nil, false
+	}
+	return root, matches, true
 }
